@@ -160,9 +160,13 @@ def check_partitioner(case, ctx):
 
     data = np.array(case["data"], dtype=float)
     cu, lb = case["cu"], case["lb"]
+    build_arg = data
+    if case.get("int_build") and np.array_equal(data, np.round(data)):
+        build_arg = data.astype(np.int64)  # same points, integer dtype; later fills may be fractional floats
+        ctx.label("integer-typed-build")
     with sut(part="build"):
         part = KDQTreePartitioner(count_ubound=cu, cutpoint_proportion_lbound=lb)
-        root = part.build(data)
+        root = part.build(build_arg)
     if root is None or part.node is not root:
         raise Violation("kdq-build-none", "build returned no tree for a non-empty 2-D data set", part="build")
     mirror = Mirror(part.node)
@@ -315,7 +319,8 @@ def strat_partitioner(tier):
         for _ in range(nops):
             kind = draw(st.sampled_from(["fill", "fill", "fill", "fill", "refill_build", "reset", "kl", "plot"]))
             if kind == "fill":
-                ops.append({"op": "fill", "data": draw(points(d, flavour, 0, 40, wide=True)), "id": draw(st.sampled_from(["a", "a", "b", "test", "build"])), "reset": draw(st.sampled_from([False, False, True])), "tile": draw(st.sampled_from([1] * 12 + [30, 130, 260]))})
+                fill_flavour = "cont" if (flavour in ("int", "dup") and draw(st.booleans())) else flavour  # fractional points into an integer-valued tree
+                ops.append({"op": "fill", "data": draw(points(d, fill_flavour, 0, 40, wide=True)), "id": draw(st.sampled_from(["a", "a", "b", "test", "build"])), "reset": draw(st.sampled_from([False, False, True])), "tile": draw(st.sampled_from([1] * 12 + [30, 130, 260]))})
             elif kind == "refill_build":
                 ops.append({"op": "refill_build", "id": draw(st.sampled_from(IDS[1:])), "reset": draw(st.booleans())})
             elif kind == "reset":
@@ -331,6 +336,7 @@ def strat_partitioner(tier):
             "cu": draw(st.sampled_from([1, 1, 2, 2, 3, 4, 6, 10, 20])),
             "lb": draw(st.sampled_from([2e-10, 2e-10, 0.01, 0.25, 1])),
             "ops": ops,
+            "int_build": draw(st.booleans()),
         }
 
     return s()
